@@ -41,7 +41,7 @@ ASSUMPTIONS = ['wavelengths > 0 and strictly increasing, values >= 0, temperatur
                'comparison tolerance 1e-12 relative; Planck arguments hc/(lambda k T) in [0.05, 50]']
 RULE = ('all 49+ name pairs and all 64 triples of wavelength units; all 27 flux triples at random (flux, wave); Spectrum.to '
         'chains of length <= 6 over random unit sequences (density and unitless, random upper/lower case, closed chains '
-        'favoured) observed after every step; Spectrum.sample(points, waveunit) for all 16 wave-unit pairs x {None, photlam, flam, wlam} (own grid and interior/outside points; spectrum untouched); band integrals integrate(start, end) on dense grids (0.05-20 nm spacing) in every wave unit before/after to() (fresh and chained objects, trapz and simps); arrays of 2**20+3 .. 3*2**20+7 samples judged at sampled indices; numpy array subclasses (MaskedArray, metadata subclass), strided views, 0-d / one-element / numpy-scalar wavelengths; Planck arguments hc/(lambda k T) from 1e-6 (Rayleigh-Jeans) to 100 (Wien tail); values scaled over 1e-30..1e30; Blackbody / vegamag / Spectrum objects whose table was edited in place (value assignment, pad, append) and then converted, against a plain Spectrum with the same table; planck_* and Blackbody under a caller-set np.errstate (raise / ignore / call, with and without an overflowing sample; error state must be left unchanged); TEST cases Wien peak (cubic fit of log radiance around the maximum) and Stefan-Boltzmann total (40001-point log grid) in every wave unit against CODATA 2018 references to 1e-5; planck_radiance/exitance, Blackbody (+ to-chain, + sample in its own and in other wave units), Blackbody.vegamag stars in every (wave, value) unit pair, converted with to-chains and sampled in every wave unit (compared with the SI reference vegaflux*planck_exitance ratio, a star built directly in the target units and a fresh star), integer/list/tuple inputs and scalar/list sample points, vegaflux in '
+        'favoured) observed after every step; Spectrum.sample(points, waveunit) for all 16 wave-unit pairs x {None, photlam, flam, wlam} (own grid and interior/outside points; spectrum untouched); band integrals integrate(start, end) on dense grids (0.05-20 nm spacing) in every wave unit before/after to() (fresh and chained objects, trapz and simps); arrays of 2**20+3 .. 3*2**20+7 samples judged at sampled indices; numpy array subclasses (MaskedArray, metadata subclass), strided views, 0-d / one-element / numpy-scalar wavelengths; Planck arguments hc/(lambda k T) from 1e-6 (Rayleigh-Jeans) to 100 (Wien tail); values scaled over 1e-30..1e30; Blackbody / vegamag / Spectrum objects whose table was edited in place (value assignment, pad, append) and then converted, against a plain Spectrum with the same table; integer-typed (int64/int32/uint16) wavelength grids for planck_*, Blackbody and Blackbody.sample in every wave unit against the float grid; planck_* and Blackbody under a caller-set np.errstate (raise / ignore / call, with and without an overflowing sample; error state must be left unchanged); TEST cases Wien peak (cubic fit of log radiance around the maximum) and Stefan-Boltzmann total (40001-point log grid) in every wave unit against CODATA 2018 references to 1e-5; planck_radiance/exitance, Blackbody (+ to-chain, + sample in its own and in other wave units), Blackbody.vegamag stars in every (wave, value) unit pair, converted with to-chains and sampled in every wave unit (compared with the SI reference vegaflux*planck_exitance ratio, a star built directly in the target units and a fresh star), integer/list/tuple inputs and scalar/list sample points, vegaflux in '
         'all unit pairs; refused operations (unknown unit, None value unit -> flux); '
         'histories of 2-4 planck_*/Unit.to/flux/vegaflux calls in one process with one argument varied at a time; non-trivial = at least one conversion between two different units')
 
@@ -357,6 +357,16 @@ def generate(rng, tier):
         if c['cls'] == 'vegamag':
             c['band'], c['mag'] = rng.choice(BANDS[:8]), float(rng.randint(0, 10))
         yield c
+    # -- integer-typed wavelength grids (np.arange and friends) at magnitudes where integer powers would wrap:
+    #    the result must be that of the same grid as floats
+    for k in range(24 if quick else 160):
+        wn = WSHORT[k % 4]
+        dt = ['int64', 'int32', 'uint16', 'int64'][(k // 4) % 4]
+        lo, hi = {'angstrom': (4000, 30000), 'nm': (300, 15000), 'um': (1, 40), 'm': (1, 5)}[wn]
+        n = rng.randint(2, 6)
+        grid = sorted(rng.sample(range(lo, hi + 1), min(n, hi - lo + 1)))
+        yield {'op': 'intgrid', 'waves': grid, 'dtype': dt, 'wn': rcase(rng, wn), 'vn': rcase(rng, rng.choice(FNAMES)),
+               'temp': float(rng.choice([300, 2856, 5772, 12000])), 'su': rng.choice(WSHORT)}
     # -- the caller's numpy error state: results and refusals of planck_* / Blackbody must not depend on it, and the
     #    library must leave it as it found it
     for k in range(24 if quick else 200):
@@ -520,6 +530,8 @@ def classify(c):
         return 'TEST/' + op
     if op == 'edited':
         return f'edited/{c["cls"]}/{c["edit"]["kind"]}'
+    if op == 'intgrid':
+        return f'intgrid/{c["dtype"]}'
     if op == 'errstate':
         return f'errstate/{c["target"]}/{c["state"]}'
     if op == 'band':
@@ -908,6 +920,20 @@ def run_impl(c):
             obj.to(*c['args'])
             plain.to(*c['args'])
             return {'table': table_, 'after': snap(obj), 'plain': snap(plain), 'type': type(obj).__name__}
+        if op == 'intgrid':
+            out = {}
+            for tag, w in (('int', np.array(c['waves'], dtype=c['dtype'])), ('float', np.array(c['waves'], dtype=float))):
+                before = w.copy()
+                bb = R.Blackbody(w, c['temp'], c['wn'], c['vn'])
+                k = truth_factor(wcanon(c['wn']), c['su'])
+                out[tag] = {'rad': fl(R.planck_radiance(w, c['temp'], c['wn'], c['vn'])),
+                            'exi': fl(R.planck_exitance(w, c['temp'], c['wn'], c['vn'])),
+                            'bb': fl(bb.value), 'bb_sample': fl(bb.sample(w, c['wn'])),
+                            'bb_cross': fl(bb.sample(np.array(c['waves'], dtype=float) * k, c['su'])),
+                            'scalar_rad': [float(R.planck_radiance(x, c['temp'], c['wn'], c['vn'])) for x in w[:2]],
+                            'scalar_exi': [float(R.planck_exitance(x, c['temp'], c['wn'], c['vn'])) for x in w[:2]],
+                            'input_kept': bool(np.array_equal(w, before) and w.dtype == before.dtype)}
+            return out
         if op == 'errstate':
             w = np.array(c['waves'], dtype=float)
 
@@ -1359,6 +1385,22 @@ def oracle(c, impl):
             return f'a {impl["type"]} with an edited table: to{tuple(c["args"])} changed its integral {t["integral"]!r} -> {a["integral"]!r}'
         if (a['wu'], a['vu']) == (t['wu'], t['vu']) and not (lclose(a['wave'], t['wave']) and lclose(a['value'], t['value'])):
             return f'a {impl["type"]} with an edited table: the closed chain {c["args"]} does not restore it: {t["value"]} -> {a["value"]}'
+        return None
+    if op == 'intgrid':
+        if 'err' in impl:
+            return f'planck_* / Blackbody on a {c["dtype"]} wavelength grid {c["waves"]} {c["wn"]} raised {impl["err"]}'
+        i, f = impl['int'], impl['float']
+        what = f'{c["dtype"]} wavelength grid {c["waves"]} {c["wn"]} at {c["temp"]} K in ({c["wn"]}, {c["vn"]})'
+        names = {'rad': 'planck_radiance', 'exi': 'planck_exitance', 'bb': 'Blackbody(...).value', 'bb_sample': 'Blackbody.sample on its grid',
+                 'bb_cross': f'Blackbody.sample in {c["su"]}', 'scalar_rad': 'planck_radiance of one integer scalar',
+                 'scalar_exi': 'planck_exitance of one integer scalar'}
+        for key, nm in names.items():
+            if not lclose(i[key], f[key]):
+                return f'{what}: {nm} returns {i[key]}, the same wavelengths as floats give {f[key]}'
+        if not lclose(i['exi'], [math.pi * x for x in i['rad']]):
+            return f'{what}: exitance {i["exi"]} is not pi * radiance {[math.pi * x for x in i["rad"]]}'
+        if not i['input_kept']:
+            return f'{what}: the caller\'s integer array was modified'
         return None
     if op == 'errstate':
         if 'err' in impl:
